@@ -348,6 +348,52 @@ func (e *Eff) loadFresh(addr ssa.Value, depth int) bool {
 				}
 			}
 			return true
+		case *ssa.Call:
+			// a helper that hands out the address of one of the fields of its (fresh) argument:
+			// dst := s.bucket(kind); *dst = append(*dst, x)
+			if !e.fresh(a) {
+				return false
+			}
+			cal := a.Call.StaticCallee()
+			if cal == nil || cal.Blocks == nil {
+				return false
+			}
+			ok := true
+			n := 0
+			eachInstr(cal, func(_ *ssa.BasicBlock, in ssa.Instruction) {
+				r, isRet := in.(*ssa.Return)
+				if !isRet || len(r.Results) == 0 {
+					return
+				}
+				var visit func(v ssa.Value, d int)
+				visit = func(v ssa.Value, d int) {
+					if d > 6 {
+						ok = false
+						return
+					}
+					switch x := v.(type) {
+					case *ssa.Phi:
+						for _, ed := range x.Edges {
+							if ed != v {
+								visit(ed, d+1)
+							}
+						}
+					case *ssa.FieldAddr:
+						n++
+						if nn, f, isF := fieldOf(x); isF {
+							if fv, seen := e.fieldFresh[fieldKey(nn, f)]; seen && !fv {
+								ok = false
+							}
+						} else {
+							ok = false
+						}
+					default:
+						ok = false
+					}
+				}
+				visit(r.Results[0], 0)
+			})
+			return ok && n > 0
 		case *ssa.IndexAddr:
 			// an element that is itself a reference: fresh only if everything put into the
 			// collection was fresh (a fresh slice of pointers to shared rules is not)
